@@ -158,6 +158,8 @@ def wrap(ctx, units, depth=0, allow_flat=True, extras=True):
     if ctx.simple:
         allow_flat = False
         extras = False
+    if getattr(ctx, "flags", {}).get("no_extras"):
+        extras = False
     while i < n:
         r = ctx.draw(st.integers(0, 9)) if (allow_flat and depth < 2) else 9
         if r < 3:
@@ -269,9 +271,9 @@ def compute_sizes(ctx, ins, outs, known_mask=None, extra_eqs=()):
                 sizes[f] = vals[0]  # scalar applies to all repetitions (count known from ranks)
             else:
                 sizes[f] = list(vals)
-        elif ctx.b(0.12):
+        elif ctx.b(0.12) or getattr(ctx, "flags", {}).get("fam_sizes"):
             sizes[f] = list(vals) if (len(set(vals)) != 1 or ctx.b(0.5)) else vals[0]
-    return sizes, {"minimal": sorted(minimal), "minimal_fams": minimal_fams}
+    return sizes, {"minimal": sorted(minimal), "minimal_fams": minimal_fams, "det_fams": sorted(det)}
 
 
 def _collect_fams(items, acc, top_only=False):
@@ -465,12 +467,18 @@ def _vector_units(ctx, nmax=4, allow_fam=True):
     """Draw the pool of vectorised units."""
     n = ctx.draw(st.integers(0, nmax))
     units = []
+    flags = getattr(ctx, "flags", {})
+    if flags.get("force_fam"):
+        allow_fam = False
     for _ in range(n):
         r = ctx.draw(st.integers(0, 9))
         if allow_fam and r == 0:
             units.append(("fam", ctx.new_family(), False, "plain"))
         else:
             units.append(("leaf", ctx.new_axis(), False))
+    if flags.get("force_fam"):
+        length = ctx.draw(st.sampled_from(LENS)) if flags.get("fam_equal") else None
+        units.insert(ctx.draw(st.integers(0, len(units))), ("fam", ctx.new_family(length=length), False, "plain"))
     return units
 
 
@@ -489,6 +497,8 @@ def _out_units(ctx, in_units_union, allow_broadcast=True, allow_squeeze=True):
     units = []
     if ctx.simple:
         return list(in_units_union)
+    if getattr(ctx, "flags", {}).get("no_squeeze"):
+        allow_squeeze = False
     for u in in_units_union:
         if allow_squeeze and _unit_len1(ctx, u) and ctx.b(0.4):
             continue
@@ -496,8 +506,11 @@ def _out_units(ctx, in_units_union, allow_broadcast=True, allow_squeeze=True):
     if allow_broadcast and ctx.b(0.25):
         for _ in range(ctx.draw(st.integers(1, 2))):
             r = ctx.draw(st.integers(0, 5))
-            if r == 0:
-                units.append(("fam", ctx.new_family(k=ctx.draw(st.sampled_from([1, 2]))), False, "plain"))
+            if getattr(ctx, "flags", {}).get("force_fam") and not getattr(ctx, "flags", {}).get("fam_equal"):
+                r = max(r, 1)
+            if r == 0 or (getattr(ctx, "flags", {}).get("fam_equal") and r <= 2):
+                length = ctx.draw(st.sampled_from(LENS)) if getattr(ctx, "flags", {}).get("fam_equal") else None
+                units.append(("fam", ctx.new_family(k=ctx.draw(st.sampled_from([1, 2, 3])), length=length), False, "plain"))
             elif r <= 2:
                 units.append(("leaf", ctx.new_num(ctx.draw(st.sampled_from(LENS))), False))
             else:
@@ -510,7 +523,7 @@ def _out_units(ctx, in_units_union, allow_broadcast=True, allow_squeeze=True):
 def _with_diagonal(ctx, units):
     """Maybe repeat an un-bracketed plain axis inside one input (diagonal)."""
     cands = [u for u in units if u[0] == "leaf" and not u[2] and u[1][0] == "ax"]
-    if cands and ctx.b(0.12) and not ctx.simple:
+    if cands and ctx.b(0.12) and not ctx.simple and not getattr(ctx, "flags", {}).get("no_diag"):
         u = ctx.pick(cands)
         pos = ctx.draw(st.integers(0, len(units)))
         units = list(units)
@@ -592,9 +605,10 @@ def _coord_layout(ctx, K):
     """Split K coordinates over coordinate tensors: list of m (bracket length) or None (no bracket)."""
     parts = []
     rem = K
+    force1 = getattr(ctx, "flags", {}).get("coord1")
     while rem > 0:
-        m = ctx.draw(st.integers(1, rem))
-        if m == 1 and ctx.b(0.5):
+        m = 1 if (force1 and ctx.b(0.7)) else ctx.draw(st.integers(1, rem))
+        if m == 1 and ctx.b(0.5) and not force1:
             parts.append(None)
         else:
             parts.append(m)
@@ -652,7 +666,11 @@ def gen_update(ctx, op):
 def _interleave(ctx, vec, br):
     """Insert bracketed units (keeping their relative order) at random positions among vec."""
     out = list(vec)
-    pos = sorted(ctx.draw(st.integers(0, len(vec))) for _ in br)
+    if getattr(ctx, "flags", {}).get("br_adjacent"):
+        p0 = ctx.draw(st.integers(0, len(vec)))
+        pos = [p0 for _ in br]
+    else:
+        pos = sorted(ctx.draw(st.integers(0, len(vec))) for _ in br)
     for off, (p, u) in enumerate(zip(pos, br)):
         out.insert(p + off, u)
     return out
@@ -688,11 +706,12 @@ def gen_preserve(ctx, op):
 
 def gen_argfind(ctx, op):
     pool = _vector_units(ctx, 3)
-    K = ctx.draw(st.sampled_from([1, 1, 2, 2, 3]))
+    k1 = getattr(ctx, "flags", {}).get("k1")
+    K = 1 if k1 else ctx.draw(st.sampled_from([1, 1, 2, 2, 3]))
     br = [("leaf", ctx.new_axis(), True) for _ in range(K)]
     in_units = _interleave(ctx, _with_diagonal(ctx, ctx.perm(pool)), br)
     out_vec = _out_units(ctx, _dedupe([u for u in in_units if not _is_br(u)]))
-    if K == 1 and ctx.b(0.5):
+    if K == 1 and ctx.b(0.5) and not k1:
         out_units = out_vec
     else:
         leaf = ctx.new_num(K) if ctx.b(0.7) else ctx.new_axis(K)
@@ -865,11 +884,98 @@ def _loop_size(env, ins, outs):
     return n
 
 
+def strip_brackets_removed(items):
+    """Default output of a reduction: the input with every bracket (and its content) removed."""
+    out = []
+    for it in items:
+        t = it[0]
+        if t == "br":
+            continue
+        if t == "flat":
+            out.append(["flat", strip_brackets_removed(it[1])])
+        elif t == "ell":
+            tpl = strip_brackets_removed(it[1])
+            if not tpl:
+                continue
+            out.append(["ell", tpl, it[2], strip_brackets_removed(it[3]), it[4] if len(it) > 4 else False])
+        else:
+            out.append(it)
+    return out
+
+
+def default_output(ctx, op, ins):
+    """The documented implicit output for `ins` (None if the operation has none / it is ambiguous)."""
+    fam = family_of(op)
+    import copy as _copy
+
+    if fam in ("preserve",) or (fam in ("id", "elementwise") and len(ins) == 1):
+        return [_copy.deepcopy(ins[0])]
+    if fam == "id":
+        return None
+    if fam == "update":
+        return [_copy.deepcopy(ins[0])]
+    if fam == "reduce":
+        return [strip_brackets_removed(ins[0])]
+    if fam == "elementwise":
+        sets = []
+        for e in ins:
+            # names as written (ellipsis templates count even with zero repetitions), numeric 1s excluded
+            sets.append({(it[1] if it[0] == "ax" else it[2]) for it in X_iter(e) if it[0] == "ax" or (it[0] == "num" and it[1] != 1)})
+        parents = [i for i, s in enumerate(sets) if all(t <= s for j, t in enumerate(sets) if j != i)]
+        # einx de-duplicates candidate expressions by equality, so identical expressions count once
+        uniq = []
+        for i in parents:
+            if not any(ins[i] == ins[j] for j in uniq):
+                uniq.append(i)
+        if len(uniq) != 1:
+            return None
+        return [_copy.deepcopy(ins[uniq[0]])]
+    if fam == "argfind":
+        brs = [it for it in X_iter(ins[0]) if it[0] == "br"]
+        if len(brs) != 1:
+            return None
+        K = sum(1 for l, b in X.walk_leaves(X.expand(ins[0])) if b)
+        target = brs[0]
+
+        def repl(items):
+            out = []
+            for it in items:
+                if it is target:
+                    out.append(["br", [ctx.new_num(K)]])
+                elif it[0] in ("flat", "cat"):
+                    out.append([it[0], repl(it[1])])
+                elif it[0] == "ell":
+                    # a bracket inside an ellipsis template: not a single bracket usage in general
+                    out.append(it)
+                else:
+                    out.append(it)
+            return out
+
+        if any(it[0] == "ell" and has_br(it[1]) for it in X_iter(ins[0])):
+            return None
+        return [repl(ins[0])]
+    return None
+
+
+def has_br(items):
+    return any(it[0] == "br" for it in X_iter(items))
+
+
+def X_iter(items):
+    for it in items:
+        yield it
+        if it[0] in ("flat", "cat", "br"):
+            yield from X_iter(it[1])
+        elif it[0] == "ell":
+            yield from X_iter(it[1])
+
+
 @st.composite
-def call_case(draw, ops=None, backends=None, quick=True, simple=False, min_inputs=0, factories=False):
+def call_case(draw, ops=None, backends=None, quick=True, simple=False, min_inputs=0, factories=False, implicit=False, flags=None):
     ctx = Ctx(draw, quick)
     ctx.simple = simple
     ctx.min_inputs = min_inputs
+    ctx.flags = flags or {}
     if ops is None:
         # stratify by family first so that structurally rich families are not drowned by the 18 scalar ops
         fam = draw(st.sampled_from(FAMILY_WEIGHTS))
@@ -879,6 +985,12 @@ def call_case(draw, ops=None, backends=None, quick=True, simple=False, min_input
         fam = family_of(op)
     ins, outs, meta = FAMILY_GEN[fam](ctx, op)
     env = ctx.env
+    implicit_ok = None
+    if implicit:
+        d = default_output(ctx, op, ins)
+        implicit_ok = d is not None
+        if d is not None:
+            outs = d
     # keep the reference evaluation cheap: shrink lengths until the loop nest is small
     guard = 0
     while _loop_size(env, ins, outs) > MAX_ELEMS and guard < 50:
@@ -933,6 +1045,9 @@ def call_case(draw, ops=None, backends=None, quick=True, simple=False, min_input
     if fmask:
         case["fmask"] = fmask
         case["protected"] = sorted(ctx.protected)
+    if implicit:
+        case["implicit_ok"] = implicit_ok
+    case["meta"]["det_fams"] = smeta.get("det_fams", [])
     return case
 
 
